@@ -89,6 +89,9 @@ func (in *Interp) intercept(fn *ssa.Function, name string, args []Value) (Value,
 	case "(*sync.Pool).Get":
 		p := args[0].(Ptr)
 		pc := p.c.slots[p.i].(*Cont)
+		if s := in.sched; s != nil && len(s.threads) > 1 {
+			s.acquire(in.thread, pc)
+		}
 		if l := in.pool[pc]; len(l) > 0 {
 			v := l[len(l)-1]
 			in.pool[pc] = l[:len(l)-1]
@@ -103,6 +106,9 @@ func (in *Interp) intercept(fn *ssa.Function, name string, args []Value) (Value,
 		// most-recently-put object is handed out again by the next Get (worst-case aliasing)
 		p := args[0].(Ptr)
 		pc := p.c.slots[p.i].(*Cont)
+		if s := in.sched; s != nil && len(s.threads) > 1 {
+			s.release(in.thread, pc)
+		}
 		in.pool[pc] = append(in.pool[pc], args[1])
 		return nil, true
 	case "(*sync.Mutex).Lock", "(*sync.Mutex).Unlock", "(*sync.RWMutex).Lock", "(*sync.RWMutex).Unlock",
@@ -183,6 +189,9 @@ func (in *Interp) mutexOp(fn *ssa.Function, args []Value) Value {
 	}
 	mc := p.c.slots[p.i].(*Cont)
 	st, _ := mc.slots[0].(lockState)
+	if s := in.sched; s != nil && len(s.threads) > 1 {
+		return in.mutexOpConcurrent(fn, mc)
+	}
 	switch fn.Name() {
 	case "Lock":
 		if st.n != 0 {
@@ -212,6 +221,21 @@ func (in *Interp) mutexOp(fn *ssa.Function, args []Value) Value {
 type lockState struct{ n int }
 
 func (in *Interp) atomicOp(fn *ssa.Function, name string, args []Value) Value {
+	if s := in.sched; s != nil && len(s.threads) > 1 {
+		if p, ok := args[0].(Ptr); ok && p.c != nil {
+			key := p.c
+			if sc, isC := p.c.slots[p.i].(*Cont); isC {
+				key = sc
+			}
+			s.point(in.thread)
+			s.acquire(in.thread, key)
+			defer s.release(in.thread, key)
+		}
+	}
+	return in.atomicOp1(fn, name, args)
+}
+
+func (in *Interp) atomicOp1(fn *ssa.Function, name string, args []Value) Value {
 	// typed atomics: (*atomic.Int64).Add etc. The value lives in a field named "v" (or "_"+"v").
 	recv := fn.Signature.Recv()
 	if recv != nil {
@@ -354,6 +378,25 @@ func (in *Interp) intrinsic(fn *ssa.Function, args []Value) (Value, bool) {
 			in.callValue(args[0], nil)
 		}()
 		return in.tb.Bool(panicked), true
+	case "verifGo":
+		if in.sched == nil {
+			in.sched = newSched(in)
+		}
+		in.sched.spawn(in, args[0])
+		return nil, true
+	case "verifJoin":
+		if in.sched != nil {
+			in.sched.join(in.thread)
+			s := in.sched
+			if len(s.races) > 0 {
+				in.ex.raceNote = s.races[0]
+			}
+			in.ex.assert("C12/no-data-race", in.tb.Bool(len(s.races) == 0))
+			in.ex.assert("C12/no-panic-in-a-goroutine", in.tb.Bool(len(s.childPanic) == 0))
+		}
+		return nil, true
+	case "verifYield":
+		return nil, true
 	case "verifOp":
 		in.ex.job.res.mu.Lock()
 		in.ex.job.res.ops++
@@ -376,4 +419,51 @@ func panicMessage(x goPanic) string {
 		return string(v)
 	}
 	return fmt.Sprintf("panic(%T)", x.v)
+}
+
+// mutexOpConcurrent: blocking semantics with scheduling points and happens-before edges.
+func (in *Interp) mutexOpConcurrent(fn *ssa.Function, mc *Cont) Value {
+	s, t := in.sched, in.thread
+	get := func() lockState { st, _ := mc.slots[0].(lockState); return st }
+	wakeWaiters := func() {
+		for _, o := range s.threads {
+			if o.blocked == mc {
+				o.blocked = nil
+			}
+		}
+	}
+	s.point(t)
+	switch fn.Name() {
+	case "Lock":
+		for get().n != 0 {
+			t.blocked = mc
+			s.switchFrom(t, false)
+		}
+		mc.slots[0] = lockState{-1}
+		s.acquire(t, mc)
+	case "RLock":
+		for get().n < 0 {
+			t.blocked = mc
+			s.switchFrom(t, false)
+		}
+		mc.slots[0] = lockState{get().n + 1}
+		s.acquire(t, mc)
+	case "Unlock":
+		if get().n != -1 {
+			in.goPanicStr("verif: Unlock of a mutex that is not write-locked")
+		}
+		mc.slots[0] = lockState{0}
+		s.release(t, mc)
+		wakeWaiters()
+		s.point(t)
+	case "RUnlock":
+		if get().n <= 0 {
+			in.goPanicStr("verif: RUnlock of a mutex that is not read-locked")
+		}
+		mc.slots[0] = lockState{get().n - 1}
+		s.release(t, mc)
+		wakeWaiters()
+		s.point(t)
+	}
+	return nil
 }
